@@ -74,8 +74,9 @@ def path(rng, pool):
         p = p.replace("/", "//") if "/" in p else "sub/../" + p
     elif x < 0.3:
         p = "$dir/" + p
-    elif x < 0.23:
-        p = p + "$ x"
+    elif x < 0.42:
+        # directory names that merely look like '.' and '..' components: they are ordinary names and stay
+        p = rng.choice((".d/", ".o/", ".x/y/", "..x/", "x../", ".../", ".hidden/", "a/.b/", "a/../.c/", "..a/../", ".a/./", "d/.e/../")) + p
     return p
 
 
